@@ -22,19 +22,19 @@ CLAIMED = {
     ),
     "C04": (
         "exhaustive enumeration of range declarations x counts (all 256 for i8/u8) on the real loader (L1), in generated match arms of probe crates (L3) and through the real code generator (L2), against an independent spec parser + Rust comparison semantics",
-        "Every 1- and 2-branch (thorough: 3-branch) declaration over the spec alphabet for i8/u8 is evaluated for all 256 counts from the parsed Range<T> structures and selected at parse time through $t(r,{count:n}); wider integer types and floats are covered on boundary neighbourhoods and extremes; declarations the statement rejects must be errors, a literal count no branch contains must be an error - never a panic or a wrong branch.",
+        "Every 1- and 2-branch (thorough: 3-branch) declaration over the spec alphabet for i8/u8 is evaluated for all 256 counts from the parsed Range<T> structures and selected at parse time through $t(r,{count:n}); wider integer types and floats are covered on boundary neighbourhoods and extremes; three- and four-level reference chains in which a middle key renames the count and outer keys pass an unrelated `count` must keep the range on its renamed count; declarations the statement rejects must be errors, a literal count no branch contains must be an error - never a panic or a wrong branch.",
         L1_NOTE + " Rust's FromStr/PartialOrd define what bounds mean. Empty/inverted ranges may be rejected or accepted.",
         "DESIGN.md §3 C04",
     ),
     "C05": (
         "exhaustive enumeration of plural-form subsets x rule type x locales x counts 0..=200 on the real loader (L1) and in generated probe crates (L3) against direct ICU4X calls",
-        "All 31 subsets of {zero..many}+other, cardinal and ordinal, for a locale set spanning the CLDR category patterns: merged trees evaluated for counts 0..=200 and large operands, parse-time selection for each such count and decimal operands, UnusedForm diagnostics as an exact multiset, and the error side (cardinal+ordinal under one key, collision with a plain key, forms without _other).",
+        "All 31 subsets of {zero..many}+other, cardinal and ordinal, for a locale set spanning the CLDR category patterns: merged trees evaluated for counts 0..=200 and large operands, parse-time selection for each such count and decimal operands, UnusedForm diagnostics as an exact multiset, and the error side (cardinal+ordinal under one key, collision with a plain key - also one that is itself named like a form (lone k_two, k_one+k_two) -, forms without _other).",
         L1_NOTE,
         "DESIGN.md §3 C05",
     ),
     "C06": (
         "exhaustive enumeration of reference chains (every name assignment), small digraphs incl. cycles, inherits maps x null/absent targets, locale and namespace variants on the real loader (L1) and in generated probe crates (L3) against a pure-substitution reference",
-        "Every chain of depth <= 2 (thorough 3) over 15 referencing forms x 7 target kinds in every assignment of key names, all digraphs on <= 3 nodes, 4-locale projects with explicit-null and inherited targets, two-namespace layouts: accepted projects must render exactly the substitution semantics in every locale, rejected ones must give an Err naming a key.",
+        "Every chain of depth <= 2 (thorough 3) over 18 referencing forms (argument texts with multi-byte characters) x 10 target kinds in every assignment of key names, all digraphs on <= 3 nodes, 4-locale projects with explicit-null and inherited targets, two-namespace layouts: accepted projects must render exactly the substitution semantics in every locale, rejected ones must give an Err naming a key.",
         L1_NOTE + " A target absent from the same locale's file cannot be referenced (documented) - expected Err.",
         "DESIGN.md §3 C06",
     ),
